@@ -69,6 +69,25 @@ func relations(p refchess.Pos, reached *board.Board, rec *evid.Rec) error {
 			return fmt.Errorf("Eval of the position reached by moves = %d, of the same position loaded from FEN %s = %d", got, p.FEN(), base)
 		}
 	}
+	// (2b) the halfmove clock is part of the input: the same placement with another clock, evaluated
+	// immediately before, must not leak into this evaluation (and vice versa)
+	q := p
+	q.Half = (p.Half + 37) % 101
+	qb, err := mustBoard(&q)
+	if err != nil {
+		return err
+	}
+	qbase := ev(qb)
+	if got := ev(b); got != base {
+		return fmt.Errorf("Eval(%s) = %d, but %d right after evaluating the same placement with halfmove clock %d", p.FEN(), base, got, q.Half)
+	}
+	if got := ev(qb); got != qbase {
+		return fmt.Errorf("Eval(%s) = %d first, %d right after evaluating the same placement with halfmove clock %d", q.FEN(), qbase, got, p.Half)
+	}
+	fresh, _ := mustBoard(&q)
+	if got := ev(fresh); got != qbase {
+		return fmt.Errorf("Eval(%s) = %d on one board, %d on another", q.FEN(), qbase, got)
+	}
 	// (3) no hidden state: evaluate something else in between, and make+undo a move
 	other := refchess.MustFEN(gen.StartFEN)
 	ob, _ := mustBoard(&other)
